@@ -9,6 +9,11 @@ def init_ddsmt(argv=None):
     sys.argv = argv or ['ddsmt', 'in.smt2', 'out.smt2', 'cmd']
     import ddsmt.options as options
     options.args()
+    # logging.chat / logging.trace are defined by the CLI set-up
+    from ddsmt import cli
+    cli.setup_logging()
+    import logging
+    logging.getLogger().setLevel(logging.CRITICAL)
     return options
 
 
